@@ -49,6 +49,13 @@ SPECS = {
                    allowed_intermediate_particles=["chi(c1)(1P)", "a(0)(980)"],
                    allowed_interaction_types=["strong", "EM"], max_angular_momentum=1,
                    formalism="helicity"),
+    "kkpi_h": dict(initial_state=("J/psi(1S)", [-1, +1]), final_state=["K+", "K-", "pi0"],
+                   allowed_intermediate_particles=["K*(892)"], formalism="helicity"),
+    "dkpp_h": dict(initial_state="D+", final_state=["K-", "pi+", "pi+"],
+                   allowed_intermediate_particles=["K*(892)", "K(0)*(1430)"], formalism="helicity"),
+    "etac_c": dict(initial_state="eta(c)(1S)", final_state=["K+", "K-", "eta"],
+                   allowed_intermediate_particles=["a(0)(980)", "f(0)(980)", "K(0)*(1430)"],
+                   formalism="canonical-helicity"),
     "d3pi_h": dict(initial_state="D0", final_state=["K~0", "K+", "K-"],
                    allowed_intermediate_particles=["a(0)(980)", "phi(1020)"],
                    formalism="helicity"),
